@@ -4,7 +4,7 @@
 set -e
 cd "$(dirname "$0")/.."
 b="$1"
-GEN="MANIFEST.json lean/Driver.lean lean/EdzedModel.lean lean/EdzedProofs.lean lean/EdzedProps.lean lean/EdzedModel/Gen/Constants.lean"
+GEN="MANIFEST.json lean/Driver.lean lean/EdzedModel.lean lean/EdzedProofs.lean lean/EdzedProps.lean lean/EdzedModel/Gen/Constants.lean lean/EdzedModel/Gen/Translated.lean"
 git merge --no-commit "$b" || true
 for f in $GEN; do git checkout --ours -- "$f" 2>/dev/null || true; done
 # evidence files are rewritten by every run: take the branch's version
@@ -27,6 +27,7 @@ if [ -n "$left" ]; then echo "UNRESOLVED: $left"; exit 1; fi
 python3 tools/gen_driver.py >/dev/null
 python3 tools/gen_manifest.py
 EDZED_SRC=/repo PYTHONPATH=/repo /venv/bin/python tools/extract.py lean/EdzedModel/Gen/Constants.lean
+EDZED_SRC=/repo PYTHONPATH=/repo /venv/bin/python tools/py2lean.py lean/EdzedModel/Gen/Translated.lean
 git add -A
 git commit -qm "Merge $b"
 echo merged "$b"
